@@ -23,14 +23,23 @@ RULE = ('attack graphs with attackers, analysis labels, tags, extras and dict-va
 ASSUMPTIONS = ['the language-level step definition attached to generated nodes (node.attributes) is language data, not per-node data']
 
 
+def _nested(v, kind, where, out, depth=0):
+    if isinstance(v, (list, dict)) and depth < 6:
+        out[id(v)] = (kind, where)
+        for x in (v.values() if isinstance(v, dict) else v):
+            _nested(x, kind, where, out, depth + 1)
+
+
 def _containers(g):
     out = {}
     for n in g.nodes:
         out[id(n)] = ('node', n.full_name)
-        for nm in ('children', 'parents', 'compromised_by', 'tags', 'extras', 'ttc'):
+        for nm in ('children', 'parents', 'compromised_by'):
             v = getattr(n, nm)
             if isinstance(v, (list, dict)):
                 out[id(v)] = (nm, n.full_name)
+        for nm in ('tags', 'extras', 'ttc'):
+            _nested(getattr(n, nm), nm, n.full_name, out)   # including containers nested inside
     for a in g.attackers:
         out[id(a)] = ('attacker', a.name)
         out[id(a.entry_points)] = ('entry_points', a.name)
@@ -57,6 +66,10 @@ def check_case(case) -> Outcome:
         except Exception as e:
             out.add('preparation-raises', f'{type(e).__name__}: {e}')
             return out
+    for j, i in case.get('pre_compromises', []):
+        # compromises before the copy, in an order that need not follow the attacker order
+        if g.attackers and g.nodes:
+            g.attackers[j % len(g.attackers)].compromise(g.nodes[i % len(g.nodes)])
     base = snapshot(g)
     try:
         c = copy.deepcopy(g)
@@ -68,6 +81,11 @@ def check_case(case) -> Outcome:
     # ---- equality ---------------------------------------------------------------------------------
     if snapshot(c) != base:
         out.add('copy-differs-from-original', '')
+    try:
+        if c._to_dict() != g._to_dict():
+            out.add('copy-serialises-differently', '')
+    except Exception as e:
+        out.add('copy-serialisation-raises', f'{type(e).__name__}: {e}')
     if snapshot(g) != base:
         out.add('deepcopy-changed-the-original', '')
     for attr in ('next_node_id', 'next_attacker_id'):
@@ -130,6 +148,19 @@ def check_case(case) -> Outcome:
                 cands = [n for n in nodes if isinstance(n.ttc, dict)]
                 if cands:
                     cands[o[2] % len(cands)].ttc['name'] = 'Changed'
+            elif k == 'ttc-nested' and nodes:
+                cands = [n for n in nodes if isinstance(n.ttc, dict) and isinstance(n.ttc.get('arguments'), list)]
+                if cands:
+                    cands[o[2] % len(cands)].ttc['arguments'].append(9.0)
+            elif k == 'extras-nested' and nodes:
+                cands = [n for n in nodes if any(isinstance(v, (dict, list)) for v in n.extras.values())]
+                if cands:
+                    n_ = cands[o[2] % len(cands)]
+                    for v in n_.extras.values():
+                        if isinstance(v, dict):
+                            v['nested-change'] = n_mut
+                        elif isinstance(v, list):
+                            v.append(n_mut)
             elif k == 'analyse':
                 apriori.calculate_viability_and_necessity(tgt)
             elif k == 'prune':
@@ -153,15 +184,16 @@ def check_case(case) -> Outcome:
 
 def _mutations(n):
     small = st.integers(0, 15)
-    kinds = ['compromise', 'undo', 'remove_node', 'add_node', 'extras', 'tag', 'ttc', 'ttc', 'analyse', 'prune',
-             'remove_attacker']
+    kinds = ['compromise', 'undo', 'remove_node', 'add_node', 'extras', 'tag', 'ttc', 'ttc-nested', 'extras-nested',
+             'analyse', 'prune', 'remove_attacker']
     return st.lists(st.tuples(st.integers(0, 1), st.sampled_from(kinds), small, small).map(list), max_size=n)
 
 
 @st.composite
 def ag_cases(draw):
     g = draw(aggen.graphs(max_nodes=8, min_nodes=1, labels=draw(st.booleans()), attackers=2, extras=True))
-    return {'start': 'ag', 'graph': g, 'mutations': draw(_mutations(8))}
+    return {'start': 'ag', 'graph': g, 'mutations': draw(_mutations(8)),
+            'pre_compromises': draw(st.lists(st.tuples(st.integers(0, 3), st.integers(0, 7)).map(list), max_size=4))}
 
 
 @st.composite
@@ -169,7 +201,8 @@ def gen_cases(draw):
     c = draw(lang_and_model({'max_assets': 4, 'max_expr_depth': 2},
                             {'max_assets': 4, 'attackers': True, 'min_assets': 1}))
     return {'start': 'gen', 'spec': c['spec'], 'model': c['model'], 'analyse': draw(st.booleans()),
-            'mutations': draw(_mutations(8))}
+            'mutations': draw(_mutations(8)),
+            'pre_compromises': draw(st.lists(st.tuples(st.integers(0, 3), st.integers(0, 7)).map(list), max_size=4))}
 
 
 CLAUSES = [
